@@ -26,7 +26,7 @@ func init() {
 		Doc:      "no function reachable (VTA call graph) from a read-side entry point stores to a package-level variable of the repository (sync.Pool internals excepted): concurrent read-side calls share no mutable global",
 		Configs:  "N",
 		VTA:      true,
-		Floor:    map[string]int{"N": 5},
+		Floor:    map[string]int{"N": 2},
 		Controls: 1,
 		Run:      runGlobalWrite,
 	})
